@@ -187,3 +187,76 @@ Proof.
   unfold spec_c08, spec_c08_detail. rewrite spec_replicas_sound, app_nil_r.
   unfold model_obs. cbn [o_steps]. now rewrite spec_steps_sound.
 Qed.
+
+(* ---------- the endpoint test of clause 1 decides equality of the covers at EVERY offset ---------- *)
+Lemma snap_point (E : list Z) x :
+  (forall e, In e E -> x < e) \/ exists e, In e E /\ e <= x /\ forall e', In e' E -> e' <= x -> e' <= e.
+Proof.
+  induction E as [|a E IH].
+  - left. intros e [].
+  - destruct IH as [H|(e & He & Hle & Hmax)].
+    + destruct (Z_le_gt_dec a x) as [Ha|Ha].
+      * right. exists a. split; [now left|]. split; [exact Ha|].
+        intros e' [<-|He'] Hx; [lia|]. specialize (H e' He'). lia.
+      * left. intros e [<-|He]; [lia|auto].
+    + right. destruct (Z_le_gt_dec a x) as [Ha|Ha].
+      * destruct (Z_le_gt_dec a e) as [Hae|Hae].
+        -- exists e. split; [now right|]. split; [exact Hle|]. intros e' [<-|He'] Hx; auto.
+        -- exists a. split; [now left|]. split; [exact Ha|].
+           intros e' [<-|He'] Hx; [lia|]. specialize (Hmax e' He' Hx). lia.
+      * exists e. split; [now right|]. split; [exact Hle|]. intros e' [<-|He'] Hx; [lia|auto].
+Qed.
+
+Lemma endpoints_In r l : In r l ->
+  In (fst r) (endpoints l) /\ In (snd r) (endpoints l) /\ In (fst r + 1) (endpoints l) /\ In (snd r + 1) (endpoints l).
+Proof.
+  intros H. unfold endpoints. repeat split; apply in_flat_map; exists r; (split; [exact H|]); cbn [In]; tauto.
+Qed.
+
+Lemma existsb_ext_in {A} (f g : A -> bool) l : (forall a, In a l -> f a = g a) -> existsb f l = existsb g l.
+Proof.
+  induction l as [|a l IH]; intros H; cbn [existsb]; [reflexivity|].
+  rewrite (H a) by now left. rewrite IH; [reflexivity|]. intros b Hb. apply H. now right.
+Qed.
+
+Lemma existsb_false_in {A} (g : A -> bool) l : (forall a, In a l -> g a = false) -> existsb g l = false.
+Proof.
+  induction l as [|a l IH]; intros H; cbn [existsb]; [reflexivity|].
+  rewrite (H a) by now left. apply IH. intros b Hb. apply H. now right.
+Qed.
+
+Theorem cover_add_ok_complete old new f t :
+  cover_add_ok old new f t = true ->
+  forall x, cov new x = cov old x || in_req x (f, t)
+            /\ cov_oc new x = cov_oc old x || in_req_oc x (f, t).
+Proof.
+  intros H x. unfold cover_add_ok in H. rewrite forallb_forall in H.
+  set (L := old ++ new ++ [(f, t)]) in *.
+  assert (Hold : forall r, In r old -> In r L) by (intros; unfold L; apply in_or_app; now left).
+  assert (Hnew : forall r, In r new -> In r L) by (intros; unfold L; apply in_or_app; right; apply in_or_app; now left).
+  assert (Hft : In (f, t) L) by (unfold L; apply in_or_app; right; apply in_or_app; right; now left).
+  assert (Hco : forall e, (forall r, In r L -> in_req x r = in_req e r) -> In e (endpoints L) ->
+                cov new x = cov old x || in_req x (f, t)).
+  { intros e Hr He. unfold cov. rewrite (existsb_ext_in (in_req x) (in_req e) new) by auto.
+    rewrite (existsb_ext_in (in_req x) (in_req e) old) by auto. rewrite (Hr _ Hft).
+    specialize (H e He). apply andb_true_iff in H as [H _]. now apply eqb_prop in H. }
+  assert (Hoc : forall e, (forall r, In r L -> in_req_oc x r = in_req_oc e r) -> In e (endpoints L) ->
+                cov_oc new x = cov_oc old x || in_req_oc x (f, t)).
+  { intros e Hr He. unfold cov_oc. rewrite (existsb_ext_in (in_req_oc x) (in_req_oc e) new) by auto.
+    rewrite (existsb_ext_in (in_req_oc x) (in_req_oc e) old) by auto. rewrite (Hr _ Hft).
+    specialize (H e He). apply andb_true_iff in H as [_ H]. now apply eqb_prop in H. }
+  destruct (snap_point (endpoints L) x) as [Hb|(e & He & Hle & Hmax)].
+  - (* x is below every endpoint: nothing covers it, in either reading *)
+    assert (Hf : forall r, In r L -> in_req x r = false /\ in_req_oc x r = false).
+    { intros r Hr. destruct (endpoints_In r L Hr) as (H1 & _ & H3 & _).
+      specialize (Hb _ H1) as Hb1. specialize (Hb _ H3) as Hb3. unfold in_req, in_req_oc. lia. }
+    assert (Hz : forall l, (forall r, In r l -> In r L) -> cov l x = false /\ cov_oc l x = false).
+    { intros l Hl. unfold cov, cov_oc. split; apply existsb_false_in; intros r Hr; apply Hf; auto. }
+    destruct (Hz new Hnew) as [-> ->]. destruct (Hz old Hold) as [-> ->]. destruct (Hf _ Hft) as [-> ->].
+    split; reflexivity.
+  - split.
+    + apply (Hco e); [|exact He]. intros r Hr. destruct (endpoints_In r L Hr) as (H1 & H2 & _ & _).
+      pose proof (Hmax _ H1). pose proof (Hmax _ H2). unfold in_req. lia.
+    + apply (Hoc e); [|exact He]. intros r Hr. destruct (endpoints_In r L Hr) as (_ & _ & H3 & H4).
+      pose proof (Hmax _ H3). pose proof (Hmax _ H4). unfold in_req_oc. lia.
+Qed.
